@@ -291,7 +291,8 @@ Definition c5_check (w : world) (q : query) (bh : N) (ops : list op) (prev : opt
            forallb (fun k => if snd k =? ST_SUCCESS then cmap_has (o_to ob) (chain_of w (snd (fst (fst k)))) (fst k) else true) pkids
          else
            forallb (fun k => mem_id (fst k) trig || cmap_has (o_mt ob) src (fst k)) pkids &&
-           forallb (fun k => if (snd k =? ST_SUCCESS) && negb (mem_id (fst k) trig)
+           (* every child that had succeeded — the reporting child included — is announced to its destination *)
+           forallb (fun k => if snd k =? ST_SUCCESS
                              then cmap_has (o_mt ob) (chain_of w (snd (fst (fst k)))) (fst k) else true) pkids
        else true)
   end.
